@@ -22,7 +22,7 @@ TLSLists == { <<"RSA_AES128_GCM">>, <<"ECDHE_RSA_AES128_GCM", "RSA_AES128_CBC">>
               <<"RSA_AES128_CBC", "ECDHE_RSA_AES256_CBC", "ECDHE_RSA_CHACHA">>, <<"ECDHE_RSA_CHACHA", "RSA_AES128_GCM">> }
 
 Auths == {"none", "request", "requireany", "verifyifgiven", "requireandverify"}
-CCerts == {"none", "good", "untrusted"}      \* client certificate: absent / issued by a CA the server trusts /
+CCerts == {"none", "good", "untrusted", "chain"}   \* chain: issued by an intermediate CA under a trusted root, sent with that intermediate      \* client certificate: absent / issued by a CA the server trusts /
                                              \* same issuer NAME but signed by another key (so it is sent, and fails verification)
 VARIABLES c, done
 
@@ -46,7 +46,7 @@ Usable(x) == FilterSeq(Common(x), LAMBDA s : Proto(x) = "tls" \/ s \in GMImpl)
 
 \* does the client send a certificate, and can the server verify it?
 Sent(x) == x.auth # "none" /\ x.ccert # "none"
-Verifiable(x) == x.ccert = "good"
+Verifiable(x) == x.ccert \in {"good", "chain"}
 AuthOK(x) == CASE x.auth = "none" -> TRUE
                [] x.auth = "request" -> TRUE
                [] x.auth = "requireany" -> Sent(x)
@@ -98,5 +98,5 @@ Spec == Init /\ [][Next]_<<c, done>>
 \* sanity of the table itself
 Sane == "kind" \in DOMAIN c \/ LET o == Outcome(c) IN
         /\ (o.result = "complete" => o.suite \in Range(Eff(c.csuites, o.proto)) \cap Range(Eff(c.ssuites, o.proto)))
-        /\ (c.auth = "requireandverify" /\ o.result = "complete" => c.ccert = "good")
+        /\ (c.auth = "requireandverify" /\ o.result = "complete" => c.ccert \in {"good", "chain"})
 =============================================================================
